@@ -13,12 +13,12 @@ open GJS
 
 /-- decode then marshal is the identity on primitive values of the right JSON type: no truncation, coercion
     or precision loss -/
-theorem prim_roundtrip (env : Env) (f g : Nat) :
-    (∀ s, decode .json env (f + 1) .string (.str s) = .ok (.str s) ∧ marshal env (g + 1) .string (.str s) = .str s) ∧
-    (∀ b, decode .json env (f + 1) .bool (.bool b) = .ok (.bool b) ∧ marshal env (g + 1) .bool (.bool b) = .bool b) ∧
-    (∀ q, decode .json env (f + 1) .float64 (.num q) = .ok (.float q) ∧ marshal env (g + 1) .float64 (.float q) = .num q) ∧
+theorem prim_roundtrip (env : Env) (f g : Nat) (a : Bool) :
+    (∀ s, decode .json env (f + 1) .string (.str s) = .ok (.str s) ∧ marshal env (g + 1) a .string (.str s) = .str s) ∧
+    (∀ b, decode .json env (f + 1) .bool (.bool b) = .ok (.bool b) ∧ marshal env (g + 1) a .bool (.bool b) = .bool b) ∧
+    (∀ q, decode .json env (f + 1) .float64 (.num q) = .ok (.float q) ∧ marshal env (g + 1) a .float64 (.float q) = .num q) ∧
     (∀ k (i : Int), k.inRangeB i = true →
-      decode .json env (f + 1) (.int k) (.num (i : Rat)) = .ok (.int i) ∧ marshal env (g + 1) (.int k) (.int i) = .num (i : Rat)) := by
+      decode .json env (f + 1) (.int k) (.num (i : Rat)) = .ok (.int i) ∧ marshal env (g + 1) a (.int k) (.int i) = .num (i : Rat)) := by
   refine ⟨?_, ?_, ?_, ?_⟩
   · intro s; simp [decode, marshal]
   · intro b; simp [decode, marshal]
